@@ -301,7 +301,7 @@ func lastLines(s string, n int) string {
 func writeReplayFile(path string, f *Failure, bounds map[string]int) {
 	j, _ := json.MarshalIndent(map[string]any{
 		"harness": f.Harness, "bounds": bounds, "model": f.Model, "label": f.Label, "kind": f.Kind,
-		"detail": f.Detail, "tags": f.Tags, "stack": f.Stack,
+		"detail": f.Detail, "tags": f.Tags, "stack": f.Stack, "image": f.Image,
 	}, "", " ")
 	os.WriteFile(path, j, 0o644)
 }
@@ -416,7 +416,24 @@ func (rp *replayer) Replay(path string, f *Failure) (bool, string) {
 	out := buf.String()
 	switch f.Kind {
 	case "ASSERT":
-		return strings.Contains(out, "VERIF-ASSERT-FAIL "+f.Label+"\n"), out
+		if strings.Contains(out, "VERIF-ASSERT-FAIL "+f.Label+"\n") {
+			return true, out
+		}
+		// the same counterexample may surface natively through another conjunct of the same property
+		// (e.g. junk decoded by the real codec instead of an error): accept a failing label that shares
+		// a property id with the symbolic one
+		for _, line := range strings.Split(out, "\n") {
+			if strings.HasPrefix(line, "VERIF-ASSERT-FAIL ") {
+				for _, p := range labelProps(strings.TrimPrefix(line, "VERIF-ASSERT-FAIL ")) {
+					for _, q := range labelProps(f.Label) {
+						if p == q {
+							return true, out
+						}
+					}
+				}
+			}
+		}
+		return false, out
 	case "PANIC":
 		return strings.Contains(out, "VERIF-PANIC") || strings.Contains(out, "panic:") || strings.Contains(out, "fatal error:"), out
 	case "FATAL":
